@@ -87,6 +87,7 @@ enum K<'a> {
     LoopNext,                          // end of a for-loop body: go on with the next element
     Join(Vec<String>),                 // end of a branch that rejoins: yield the current versions of these variables
     Val,                               // a block used as a value (let x = if .. { ..; v } else { .. })
+    ValJoin(Vec<String>),              // a block used as a value that also assigns these outer variables
     NoFall,                            // a branch that must not fall through (it returns)
     LoopSR(Vec<String>),               // end of the body of a loop with state and early return: next element
 }
@@ -706,7 +707,7 @@ impl<'a> Tr<'a> {
                 }
             }
             K::LoopNext => Ok("None".to_string()),
-            K::Val => Err("a block used as a value must end in an expression".into()),
+            K::Val | K::ValJoin(_) => Err("a block used as a value must end in an expression".into()),
             K::NoFall => Err("the branch of a mutating condition must return".into()),
             K::LoopSR(vars) => {
                 let mut parts = Vec::new();
@@ -831,17 +832,27 @@ impl<'a> Tr<'a> {
                     Pat::Ident(i) => i.ident.to_string(),
                     _ => return Err(format!("let pattern {}", toks(&l.pat))),
                 };
+                let vars: Vec<String> = self.scan(&init.expr).assigned.into_iter().filter(|v| self.lookup(v).is_some()).collect();
+                let kv = if vars.is_empty() { K::Val } else { K::ValJoin(vars.clone()) };
                 let saved = self.env.clone();
                 let inner = match &*init.expr {
-                    Expr::Match(m) => self.match_stmt(m, &[], &K::Val),
+                    Expr::Match(m) => self.match_stmt(m, &[], &kv),
                     _ => unreachable!(),
                 };
                 self.env = saved;
                 let inner = inner?;
                 let kind = self.t.kinds.get(&name).cloned().unwrap_or(Kind::Other);
+                let mut names = Vec::new();
+                for v in &vars {
+                    names.push(self.rebind(v)?);
+                }
                 let c = self.bind(&name, kind);
                 let restc = self.seq(rest, k)?;
-                Ok(format!("obind ({}) (fun {} =>\n{})", inner, c, restc))
+                if vars.is_empty() {
+                    Ok(format!("obind ({}) (fun {} =>\n{})", inner, c, restc))
+                } else {
+                    Ok(format!("obind ({}) (fun '({}, {}) =>\n{})", inner, c, Self::tuple_of(&names), restc))
+                }
             }
             Stmt::Local(l) if l.init.as_ref().map(|i| matches!(&*i.expr, Expr::If(_) | Expr::Block(_))).unwrap_or(false)
                 && !matches!(&*l.init.as_ref().unwrap().expr, Expr::If(i) if matches!(&*i.cond, Expr::Let(_)) && false) =>
@@ -852,18 +863,28 @@ impl<'a> Tr<'a> {
                     Pat::Ident(i) => i.ident.to_string(),
                     _ => return Err(format!("let pattern {}", toks(&l.pat))),
                 };
+                let vars: Vec<String> = self.scan(&init.expr).assigned.into_iter().filter(|v| self.lookup(v).is_some()).collect();
+                let kv = if vars.is_empty() { K::Val } else { K::ValJoin(vars.clone()) };
                 let saved = self.env.clone();
                 let inner = match &*init.expr {
-                    Expr::If(i) => self.if_stmt(i, &[], &K::Val),
-                    Expr::Block(b) => self.block(&b.block, &[], &K::Val),
+                    Expr::If(i) => self.if_stmt(i, &[], &kv),
+                    Expr::Block(b) => self.block(&b.block, &[], &kv),
                     _ => unreachable!(),
                 };
                 self.env = saved;
                 let inner = inner?;
                 let kind = self.t.kinds.get(&name).cloned().unwrap_or(Kind::Other);
+                let mut names = Vec::new();
+                for v in &vars {
+                    names.push(self.rebind(v)?);
+                }
                 let c = self.bind(&name, kind);
                 let restc = self.seq(rest, k)?;
-                Ok(format!("obind ({}) (fun {} =>\n{})", inner, c, restc))
+                if vars.is_empty() {
+                    Ok(format!("obind ({}) (fun {} =>\n{})", inner, c, restc))
+                } else {
+                    Ok(format!("obind ({}) (fun '({}, {}) =>\n{})", inner, c, Self::tuple_of(&names), restc))
+                }
             }
             Stmt::Local(l) => {
                 let init = l.init.as_ref().ok_or("let without initialiser")?;
@@ -904,6 +925,7 @@ impl<'a> Tr<'a> {
     fn arm_needs_block(&self, body: &Expr) -> bool {
         match body {
             Expr::Block(_) => true,
+            Expr::MethodCall(m) if (m.method == "unwrap" || m.method == "expect") && self.is_fallible(&m.receiver) => true,
             other => self.is_fallible(other),
         }
     }
@@ -980,6 +1002,7 @@ impl<'a> Tr<'a> {
             }
             Expr::Return(r) => match &r.expr {
                 Some(x) => self.ret(x),
+                None if self.t.retmode == "mutself" => self.retvars_value(),
                 None => Ok(self.in_loop("Ok tt".to_string())),
             },
             Expr::Assign(a) => {
@@ -1192,7 +1215,7 @@ impl<'a> Tr<'a> {
         loop {
             match kk {
                 K::Seq(r, outer, _) if r.is_empty() => kk = outer,
-                K::End | K::Val => return true,
+                K::End | K::Val | K::ValJoin(_) => return true,
                 _ => return false,
             }
         }
@@ -1216,6 +1239,15 @@ impl<'a> Tr<'a> {
                                 let (v, _) = self.expr(e, &mut binds)?;
                                 return Ok(Self::wrap_binds(binds, format!("Ok {}", v)));
                             }
+                            K::ValJoin(vars) => {
+                                let mut binds = Vec::new();
+                                let (v, _) = self.expr(e, &mut binds)?;
+                                let mut parts = Vec::new();
+                                for x in vars {
+                                    parts.push(self.lookup(x).ok_or(format!("join variable {}", x))?.0);
+                                }
+                                return Ok(Self::wrap_binds(binds, format!("Ok ({}, {})", v, Self::tuple_of(&parts))));
+                            }
                             _ => return Err(format!("expression statement not in the subset: {}", toks(e))),
                         }
                     }
@@ -1234,6 +1266,9 @@ impl<'a> Tr<'a> {
 
     fn joinable(&self, e: &Expr, rest: &[Stmt], k: &K) -> bool {
         let follows = !rest.is_empty() || !matches!(k, K::End);
+        if rest.is_empty() && self.tail_position(k) {
+            return false; // the statement IS the value of the enclosing block / function
+        }
         follows && self.loop_depth == 0 && !self.scan(e).value_return
     }
 
